@@ -249,6 +249,15 @@ func (x *Exec) verify() (err error) {
 		vars[p.Name()] = v
 		x.replay.Params = append(x.replay.Params, ReplayParam{Name: p.Name(), Type: p.Type(), Val: v})
 	}
+	if len(x.spec.Params) > 0 {
+		if len(x.spec.Params) != len(fn.Params) {
+			return specErr{fmt.Sprintf("contract of %s pins %d parameter names, the function has %d parameters", x.fname, len(x.spec.Params), len(fn.Params))}
+		}
+		// the names the contract was written with, bound by position
+		for i, p := range fn.Params {
+			vars[x.spec.Params[i]] = fr.regs[p]
+		}
+	}
 	// parameters do not point at package-level variables or function objects
 	// (their ids are below 10000); stated as an input assumption
 	for _, p := range fn.Params {
@@ -362,6 +371,9 @@ func (x *Exec) verify() (err error) {
 		}
 	}
 	for _, n := range needed {
+		if strings.HasPrefix(n, "anychan.") {
+			continue
+		}
 		if !localNames[n] {
 			return specErr{fmt.Sprintf("contract of %s names the local variable %q, which does not exist (renamed?): the clause would check nothing", x.fname, n)}
 		}
@@ -1839,6 +1851,9 @@ func (x *Exec) zeroGhosts(st *State, addr Term, t types.Type, depth int) {
 func (x *Exec) ghostInit(st *State, in ssa.Instruction) {
 	fr := st.top()
 	fs := x.prog.spec.Funcs[x.prog.relName(fr.fn)]
+	if fs == nil && len(st.frames) > 1 {
+		fs = x.spec // an inlined helper runs under the contract of the function being verified
+	}
 	if fs == nil || len(fs.GhostInit) == 0 {
 		return
 	}
@@ -1848,11 +1863,23 @@ func (x *Exec) ghostInit(st *State, in ssa.Instruction) {
 	}
 	// the DebugRef naming the variable follows the allocation; look it up by value
 	name := x.localNameOf(fr.fn, v)
-	if name == "" {
-		return
-	}
 	cs := fs.GhostInit[name]
-	if len(cs) == 0 {
+	if len(cs) == 0 || name == "" {
+		// by type: `ghostinit anychan.T : expr over v` applies to every make(chan T / chan *T)
+		if _, isMake := in.(*ssa.MakeChan); isMake {
+			if ak := anyChanKey(v.Type()); ak != "" && len(fs.GhostInit[ak]) > 0 {
+				sf := fr
+				if fs == x.spec && len(st.frames) > 1 {
+					sf = st.frames[0] // the clause is written in the scope of the function under contract
+				}
+				vars := x.scopeVars(st, sf)
+				vars["v"] = fr.regs[v]
+				env := &Env{x: x, st: st, old: x.entry, vars: vars, what: x.prog.relName(fr.fn) + " ghostinit " + ak}
+				for _, c := range fs.GhostInit[ak] {
+					st.assume(env.evalBool(c.Expr))
+				}
+			}
+		}
 		return
 	}
 	vars := x.scopeVars(st, fr)
